@@ -175,7 +175,7 @@ func testVerifOS(t *testing.T, id string) {
 		return verifkit.Decode(raw, prop)
 	})
 	verifkit.Enumerate(k, t, "os-flag-singles-and-pairs", true, osFlags, prop)
-	verifkit.Rapid(k, t, "os-rtnetlink-replies", k.N(2000, 50000), osGen, prop)
+	verifkit.Rapid(k, t, "os-rtnetlink-replies", k.N(2000, 300000), osGen, prop)
 }
 
 func TestVerif_C13os(t *testing.T) { testVerifOS(t, "C13") }
